@@ -82,6 +82,7 @@ pub fn config(a: &Args) -> Config {
         deep: a.num("deep", 0) as u32,
         quq: a.num("quq", 0) as u32,
         quq_tail: a.num("quq-tail", 1) as u32,
+        quq_cs: a.num("quq-cs", 0) as u32,
     }
 }
 
